@@ -29,6 +29,10 @@ def all_ops(rng):
         {"op": "size"},
         {"op": "event", "event": {"go": 1}},
         {"op": "query", "query": {"pattern": {"k": "?k"}}},
+        # what the cron service sends when a scheduled rule is due; after a one-shot rule ran it is removed -- a removal like any other:
+        # it needs the caller's write key
+        {"op": "event", "event": {"trigger!": "s1"}},
+        {"op": "getRule", "id": "s1"},
     ]
 
 def gen_case(rng, thorough):
@@ -38,6 +42,8 @@ def gen_case(rng, thorough):
         {"op": "addFact", "id": "f2", "fact": {"k": 2}},
         # a rule whose action writes through Env.AddFact: it runs with the caller's context, so it needs the caller's write key
         {"op": "addRule", "id": "r1", "rule": {"when": {"pattern": {"go": "?x"}}, "actions": [A, EFFECT]}},
+        # a one-shot scheduled rule (far in the future; no cron is attached here), added before the location is protected
+        {"op": "addRule", "id": "s1", "rule": {"schedule": "+1000h", "action": A}},
     ]
     wk = rk = None
     if prot in ("write", "both", "write+ro"):
